@@ -45,7 +45,7 @@ AA = imp(A, A)
 
 def bounds(tier):
     return tier_param(tier, {'depth': 3, 'nested_items': 2, 'depth3_menu': 'flat items, <=1 citation, stated sequent in {none, |- false}'},
-                      {'depth': 3, 'nested_items': 2, 'depth3_menu': 'full (flat items with every citation list and every stated sequent, and blocks)'})
+                      {'depth': 3, 'nested_items': 2, 'depth3_menu': 'flat items with every citation list, both id choices and every stated sequent (with nested blocks it did not finish in 25 minutes)'})
 
 
 # ---------------------------------------------------------------------------- item descriptions
@@ -590,8 +590,10 @@ def explore(tier, shard, nshards, agg):
             if sharded_level and si % nshards != shard:
                 continue
             k = len(st)
-            if d <= 2 or (tier == 'thorough' and d == 3):
+            if d <= 2:
                 menu = itertools.chain(flat_items((k,), st), block_items(k, st))
+            elif d == 3 and tier == 'thorough':
+                menu = flat_items((k,), st)       # every citation list, both id choices, every stated sequent; no nested block
             elif d == 3:
                 menu = flat_items((k,), st, max_cites=1, min_th=True)
             else:
